@@ -53,8 +53,7 @@ def import_pkg():
     logging.disable(logging.CRITICAL)
     import warnings
     warnings.filterwarnings('ignore')
-    import numpy as np
-    np.seterr(all='ignore')
+    import numpy as np   # NumPy's floating-point error state is left at its default: it is part of the ambient state P4 watches
     import kneeliverse
     f = os.path.realpath(kneeliverse.__file__)
     if not f.startswith(os.path.realpath(REPO_SRC) + os.sep):
